@@ -23,10 +23,18 @@ def copy_value(data):
     return a new value identical to default , but different in memory,
     to avoid multiple initialize to modify the same default data
     """
-    if multi(data):
+    if type(data) in (list, tuple, set, frozenset):
         return type(data)([copy_value(d) for d in data])
-    elif isinstance(data, dict):
+    elif type(data) is dict:
         return {k: copy_value(v) for k, v in data.items()}
+    elif multi(data) or isinstance(data, dict):
+        # subclasses (namedtuple, OrderedDict, defaultdict, data class instances ...)
+        # have constructors of their own: copy them as they are
+        import copy
+        try:
+            return copy.deepcopy(data)
+        except Exception:  # noqa
+            return data
     return data
 
 
